@@ -4,6 +4,7 @@ import Morlock.Driver.Game
 import Morlock.Driver.Fen
 import Morlock.Driver.Search
 import Morlock.Driver.Engine
+import Morlock.Driver.Uci
 open Morlock.Driver in
 def dispatchPure (toks : List String) : String :=
   match toks with
@@ -29,6 +30,7 @@ def dispatch (st : DriverState) (line : String) : DriverState × String :=
   | "game" :: args => (st, gameOp st args)
   | "search" :: args => (st, searchOp st args)
   | "engine" :: args => (st, engineOp st args)
+  | "uci" :: args => (st, uciOp st args)
   | other => (st, dispatchPure other)
 
 partial def loop (h : IO.FS.Stream) (out : IO.FS.Stream) (st : DriverState) : IO Unit := do
